@@ -1,8 +1,9 @@
 (* C27: proofs about the component model (Model/Comp.v) against the specification of CheckComp.v.
 
-   Part 1 (parse).  For every tree without a D14 leak, parse_comp's loop over the inline payload stream yields
-   exactly the "ideal" IR in which every level has logged its own sections only, and reports one push per
-   direct child ([parse_ideal]).
+   Part 1 (parse).  For every tree, at any nesting depth, parse_comp's loop over the inline payload stream yields
+   exactly the "ideal" IR in which every level has logged its own sections only ([parse_ideal]): while a level
+   skips the inline payloads of a nested body it follows their nesting, so the stack is back at its old height
+   exactly behind the End that closes that body ([skip_node]).
    Part 2 (replay).  Replaying the ideal IR gives exactly the normal form of the input tree (with the items
    re-encoded): run-length log + per-kind cursors = merging of adjacent item sections ([replay_ideal]).
    Part 3.  The theorems of Props/C27.v. *)
@@ -39,100 +40,83 @@ End NodeInd.
 (* ------------------------------------------------------------------------------------------ *)
 (* Part 1: the stack discipline *)
 
-Definition is_end (p : payload) : bool := match p with PEnd => true | _ => false end.
-Definition ends (ps : list payload) : nat := length (filter is_end ps).
-(* what is left of a stream behind its k-th End *)
-Fixpoint after_ends (k : nat) (ps : list payload) : list payload :=
-  match k with
-  | O => ps
-  | S k' => match ps with
-            | [] => []
-            | PEnd :: r => after_ends k' r
-            | _ :: r => after_ends k r
-            end
-  end.
+(* the three kinds of step in skip mode (stack non-empty after the pop) *)
+Definition is_plain (p : payload) : bool :=
+  match p with PEnd | PModule _ _ | PComponent _ => false | _ => true end.
+Definition is_push (p : payload) : bool :=
+  match p with PModule _ _ | PComponent _ => true | _ => false end.
 
-Lemma after_ends_0 ps : after_ends 0 ps = ps.
-Proof. destruct ps; reflexivity. Qed.
-
-(* the condition under which a level skips the inline stream of a nested component [NComp cs] correctly:
-   behind the (1 + children)-th End only Ends are left *)
-Definition tail_ok (cs : list node) : bool :=
-  forallb is_end (after_ends (S (children cs)) (stream cs)).
-Fixpoint clean_node (nd : node) : bool :=
-  match nd with
-  | NComp cs => tail_ok cs && forallb clean_node cs
-  | _ => true
-  end.
-Definition clean (cs : list node) : bool := forallb clean_node cs.
-
-Lemma ends_app a b : ends (a ++ b) = (ends a + ends b)%nat.
-Proof. unfold ends. rewrite filter_app, app_length. reflexivity. Qed.
-
-Lemma step_end_only nested : forall ps pushed a,
-  forallb is_end ps = true ->
-  fold_left (step nested) ps (0%N, pushed, a) = (0%N, pushed, a).
+Lemma step_skip_plain nested s a p :
+  s <> 0%N -> is_plain p = true -> step nested (s, a) p = (s, a).
 Proof.
-  induction ps as [|p ps IH]; intros pushed a H; [reflexivity|].
+  intros Hs Hp. unfold step.
+  destruct p; try discriminate Hp; cbv beta iota zeta;
+    (destruct (s =? 0)%N eqn:E; [apply N.eqb_eq in E; contradiction|reflexivity]).
+Qed.
+Lemma step_skip_push nested s a p :
+  s <> 0%N -> is_push p = true -> step nested (s, a) p = ((s + 1)%N, a).
+Proof.
+  intros Hs Hp. unfold step.
+  destruct p; try discriminate Hp; cbv beta iota zeta;
+    (destruct (s =? 0)%N eqn:E; [apply N.eqb_eq in E; contradiction|reflexivity]).
+Qed.
+Lemma step_skip_pop nested s a :
+  s <> 0%N -> step nested ((s + 1)%N, a) PEnd = (s, a).
+Proof.
+  intros Hs. unfold step. cbv beta iota zeta.
+  rewrite N.add_1_r, N.pred_succ.
+  destruct (s =? 0)%N eqn:E; [apply N.eqb_eq in E; contradiction|reflexivity].
+Qed.
+
+Lemma skip_plain nested : forall ps rest s a,
+  s <> 0%N -> forallb is_plain ps = true ->
+  fold_left (step nested) (ps ++ rest) (s, a) = fold_left (step nested) rest (s, a).
+Proof.
+  induction ps as [|p ps IH]; intros rest s a Hs H; [reflexivity|].
   cbn [forallb] in H. apply andb_true_iff in H. destruct H as [Hp H].
-  destruct p; try discriminate Hp. cbn [fold_left step]. cbn. apply IH. exact H.
+  cbn [app fold_left]. rewrite step_skip_plain by assumption. apply IH; assumption.
 Qed.
 
-(* with s >= 1 entries on the stack, a stream that has at least s Ends and nothing but Ends behind the s-th
-   is skipped entirely and leaves the stack empty *)
-Lemma step_skip nested : forall ps s pushed a,
-  (S s <= ends ps)%nat ->
-  forallb is_end (after_ends (S s) ps) = true ->
-  fold_left (step nested) ps (N.of_nat (S s), pushed, a) = (0%N, pushed, a).
+(* The inline payloads of one section -- of a whole nested body, whatever it contains and however deep it is -- are
+   skipped by a level whose stack is non-empty, and leave that stack as it was: the ModuleSection /
+   ComponentSection payload pushes, the body's own End pops. *)
+Definition skips (nd : node) : Prop :=
+  forall nested rest s a, s <> 0%N ->
+    fold_left (step nested) (stream_node nd ++ rest) (s, a) = fold_left (step nested) rest (s, a).
+
+Lemma skip_list cs : Forall skips cs ->
+  forall nested rest s a, s <> 0%N ->
+    fold_left (step nested) (flat_map stream_node cs ++ rest) (s, a) = fold_left (step nested) rest (s, a).
 Proof.
-  induction ps as [|p ps IH]; intros s pushed a Hn Ht.
-  - cbn in Hn. lia.
-  - assert (Hne : forall q, is_end q = false ->
-              step nested (N.of_nat (S s), pushed, a) q = (N.of_nat (S s), pushed, a)).
-    { intros q Hq. unfold step.
-      replace (match q with PEnd => N.pred (N.of_nat (S s)) | _ => N.of_nat (S s) end) with (N.of_nat (S s))
-        by (destruct q; try reflexivity; discriminate Hq).
-      replace (N.of_nat (S s) =? 0)%N with false by (symmetry; apply N.eqb_neq; lia). reflexivity. }
-    destruct (is_end p) eqn:Ep.
-    + destruct p; try discriminate Ep.
-      cbn [fold_left]. cbn [after_ends] in Ht.
-      unfold ends in Hn. cbn [filter is_end length] in Hn. fold (ends ps) in Hn.
-      destruct s as [|s'].
-      * (* the last entry is popped here *)
-        replace (step nested (N.of_nat 1, pushed, a) PEnd) with (0%N, pushed, a) by reflexivity.
-        rewrite after_ends_0 in Ht. apply step_end_only. exact Ht.
-      * replace (step nested (N.of_nat (S (S s')), pushed, a) PEnd) with (N.of_nat (S s'), pushed, a).
-        2:{ unfold step. replace (N.pred (N.of_nat (S (S s')))) with (N.of_nat (S s')) by lia.
-            replace (N.of_nat (S s') =? 0)%N with false by (symmetry; apply N.eqb_neq; lia). reflexivity. }
-        apply IH; [lia | exact Ht].
-    + cbn [fold_left]. rewrite (Hne p Ep).
-      apply IH.
-      * unfold ends in *. cbn [filter] in Hn. rewrite Ep in Hn. exact Hn.
-      * destruct p; try discriminate Ep; exact Ht.
+  induction 1 as [|c cs Hc _ IH]; intros nested rest s a Hs; [reflexivity|].
+  cbn [flat_map]. rewrite <- app_assoc, Hc by exact Hs. apply IH. exact Hs.
 Qed.
 
-(* every nested body contributes at least its own End *)
-Lemma ends_stream_node_body nd : is_body nd = true -> (1 <= ends (stream_node nd))%nat.
+Lemma skip_node : forall nd, skips nd.
 Proof.
-  destruct nd; try discriminate; intros _; cbn [stream_node].
-  - change (PModule tok customs :: PVersion :: map PCustom customs ++ [PEnd])
-      with ([PModule tok customs; PVersion] ++ map PCustom customs ++ [PEnd]).
-    rewrite !ends_app. cbn. lia.
-  - change (PComponent children :: PVersion :: flat_map stream_node children ++ [PEnd])
-      with ([PComponent children; PVersion] ++ flat_map stream_node children ++ [PEnd]).
-    rewrite !ends_app. cbn. lia.
+  induction nd using node_ind'; unfold skips; intros nested rest s a Hs.
+  1,3,4,5: cbn [stream_node app fold_left]; rewrite step_skip_plain by (try exact Hs; reflexivity); reflexivity.
+  - (* a module: its ModuleSection payload pushes, Version and custom sections are ignored, its End pops *)
+    cbn [stream_node app fold_left].
+    rewrite step_skip_push by (try exact Hs; reflexivity).
+    assert (Hs1 : (s + 1)%N <> 0%N) by lia.
+    rewrite step_skip_plain by (try exact Hs1; reflexivity).
+    rewrite <- app_assoc, skip_plain;
+      [|exact Hs1|rewrite forallb_forall; intros p Hp; apply in_map_iff in Hp; destruct Hp as [x [<- _]]; reflexivity].
+    cbn [app fold_left]. rewrite step_skip_pop by exact Hs. reflexivity.
+  - (* a nested component: push, skip its sections one level higher, pop at its own End *)
+    cbn [stream_node app fold_left].
+    rewrite step_skip_push by (try exact Hs; reflexivity).
+    assert (Hs1 : (s + 1)%N <> 0%N) by lia.
+    rewrite step_skip_plain by (try exact Hs1; reflexivity).
+    rewrite <- app_assoc, (skip_list cs H) by exact Hs1.
+    cbn [app fold_left]. rewrite step_skip_pop by exact Hs. reflexivity.
 Qed.
-Lemma ends_flat_map cs : (children cs <= ends (flat_map stream_node cs))%nat.
-Proof.
-  unfold children. induction cs as [|c cs IH]; [cbn; lia|].
-  cbn [flat_map filter]. rewrite ends_app.
-  destruct (is_body c) eqn:E; [pose proof (ends_stream_node_body c E); cbn [length]|]; lia.
-Qed.
-Lemma ends_stream cs : (S (children cs) <= ends (stream cs))%nat.
-Proof.
-  unfold stream. change (PVersion :: flat_map stream_node cs ++ [PEnd]) with ([PVersion] ++ flat_map stream_node cs ++ [PEnd]).
-  rewrite !ends_app. pose proof (ends_flat_map cs). cbn. lia.
-Qed.
+
+Lemma skip_nodes nested cs rest s a :
+  s <> 0%N ->
+  fold_left (step nested) (flat_map stream_node cs ++ rest) (s, a) = fold_left (step nested) rest (s, a).
+Proof. apply skip_list. rewrite Forall_forall. intros nd _. apply skip_node. Qed.
 
 (* the IR in which every level has absorbed exactly its own sections *)
 Definition absorb (a : ir) (nd : node) (sub : ir) : ir :=
@@ -155,193 +139,68 @@ Definition ideal (cs : list node) : ir := ideal_from empty_ir cs.
 Lemma depth_cons c cs : depth (c :: cs) = Nat.max (depth_node c) (depth cs).
 Proof. reflexivity. Qed.
 
-Lemma step_nonbody_skip nested : forall ps pushed a,
-  forallb (fun p => negb (is_end p)) ps = true ->
-  fold_left (step nested) ps (1%N, pushed, a) = (1%N, pushed, a).
-Proof.
-  induction ps as [|p ps IH]; intros pushed a H; [reflexivity|].
-  cbn [forallb] in H. apply andb_true_iff in H. destruct H as [Hp H].
-  cbn [fold_left]. replace (step nested (1%N, pushed, a) p) with (1%N, pushed, a).
-  - apply IH; exact H.
-  - destruct p; try reflexivity. discriminate Hp.
-Qed.
-
 (* the loop over the sections of one level *)
 Definition parse_ok (nd : node) : Prop :=
   match nd with
-  | NComp cs => clean cs = true -> forall f, (depth cs < f)%nat ->
-                parse_fuel f (stream cs) = (ideal cs, N.of_nat (children cs))
+  | NComp cs => forall f, (depth cs < f)%nat -> parse_fuel f (stream cs) = ideal cs
   | _ => True
   end.
 
 Lemma loop_level f : forall cs,
-  Forall parse_ok cs -> clean cs = true -> (depth cs <= f)%nat ->
-  forall rest pushed a,
-    fold_left (step (parse_fuel f)) (flat_map stream_node cs ++ rest) (0%N, pushed, a)
-    = fold_left (step (parse_fuel f)) rest (0%N, (pushed + N.of_nat (children cs))%N, ideal_from a cs).
+  Forall parse_ok cs -> (depth cs <= f)%nat ->
+  forall rest a,
+    fold_left (step (parse_fuel f)) (flat_map stream_node cs ++ rest) (0%N, a)
+    = fold_left (step (parse_fuel f)) rest (0%N, ideal_from a cs).
 Proof.
-  induction cs as [|c cs IH]; intros HP Hc Hd rest pushed a.
-  - cbn. replace (pushed + 0)%N with pushed by lia. reflexivity.
-  - inversion HP as [|? ? Hc0 HP']; subst.
-    cbn [clean forallb] in Hc. apply andb_true_iff in Hc. destruct Hc as [Hcc Hcs].
-    rewrite depth_cons in Hd.
-    cbn [flat_map]. rewrite <- app_assoc.
-    assert (Hrest : forall pushed' a',
-              (pushed' = pushed + N.of_nat (if is_body c then 1 else 0))%N ->
-              a' = absorb a c (ideal_node c) ->
-              fold_left (step (parse_fuel f)) (flat_map stream_node cs ++ rest) (0%N, pushed', a')
-              = fold_left (step (parse_fuel f)) rest
-                  (0%N, (pushed + N.of_nat (children (c :: cs)))%N, ideal_from a (c :: cs))).
-    { intros pushed' a' -> ->. rewrite IH; [|assumption|exact Hcs|lia].
-      replace (pushed + N.of_nat (if is_body c then 1 else 0) + N.of_nat (children cs))%N
-        with (pushed + N.of_nat (children (c :: cs)))%N; [reflexivity|].
-      unfold children. cbn [filter]. destruct (is_body c); cbn [length]; lia. }
-    destruct c; cbn [stream_node is_body] in *.
-    1,3,4,5: cbn [app fold_left]; apply Hrest; [cbn; lia|reflexivity].
-    + (* module: handled, then its Version / custom sections are skipped and its End pops *)
-      cbn [app fold_left].
-      replace (step (parse_fuel f) (0%N, pushed, a) (PModule tok customs)) with (1%N, (pushed + 1)%N, add_mod a tok) by reflexivity.
-      replace (step (parse_fuel f) (1%N, (pushed + 1)%N, add_mod a tok) PVersion) with (1%N, (pushed + 1)%N, add_mod a tok) by reflexivity.
-      rewrite <- app_assoc, fold_left_app.
-      rewrite step_nonbody_skip by (rewrite forallb_forall; intros p Hp; apply in_map_iff in Hp; destruct Hp as [x [<- _]]; reflexivity).
-      cbn [app fold_left].
-      replace (step (parse_fuel f) (1%N, (pushed + 1)%N, add_mod a tok) PEnd) with (0%N, (pushed + 1)%N, add_mod a tok) by reflexivity.
-      apply Hrest; [cbn; lia|reflexivity].
-    + (* nested component: parsed recursively (one push per direct child), then its inline stream is skipped *)
-      cbn [clean_node] in Hcc. apply andb_true_iff in Hcc. destruct Hcc as [Htail Hclean].
-      cbn [depth_node] in Hd. fold (depth children) in Hd.
-      destruct f as [|f']; [lia|].
-      assert (Hnested : parse_fuel (S f') (stream children) = (ideal children, N.of_nat (CheckComp.children children))).
-      { apply Hc0; [exact Hclean|lia]. }
-      change ((PComponent children :: PVersion :: flat_map stream_node children ++ [PEnd]) ++ flat_map stream_node cs ++ rest)
-        with (PComponent children :: (stream children ++ flat_map stream_node cs ++ rest)).
-      cbn [fold_left].
-      replace (step (parse_fuel (S f')) (0%N, pushed, a) (PComponent children))
-        with (N.of_nat (S (CheckComp.children children)), (pushed + 1)%N, add_comp a (ideal children)).
-      2:{ unfold step. cbn [N.eqb negb]. rewrite Hnested. f_equal. f_equal. lia. }
-      rewrite fold_left_app.
-      rewrite step_skip; [|apply ends_stream|exact Htail].
-      apply Hrest; [cbn; lia|reflexivity].
+  induction cs as [|c cs IH]; intros HP Hd rest a; [reflexivity|].
+  inversion HP as [|? ? Hc0 HP']; subst.
+  rewrite depth_cons in Hd.
+  cbn [flat_map]. rewrite <- app_assoc.
+  assert (Hrest : forall a', a' = absorb a c (ideal_node c) ->
+            fold_left (step (parse_fuel f)) (flat_map stream_node cs ++ rest) (0%N, a')
+            = fold_left (step (parse_fuel f)) rest (0%N, ideal_from a (c :: cs))).
+  { intros a' ->. rewrite IH; [reflexivity|assumption|lia]. }
+  assert (H1 : 1%N <> 0%N) by discriminate.
+  destruct c; cbn [stream_node] in *.
+  1,3,4,5: cbn [app fold_left]; apply Hrest; reflexivity.
+  - (* module: handled, then its Version / custom sections are skipped and its End empties the stack *)
+    cbn [app fold_left].
+    replace (step (parse_fuel f) (0%N, a) (PModule tok customs)) with (1%N, add_mod a tok) by reflexivity.
+    rewrite step_skip_plain by (try exact H1; reflexivity).
+    rewrite <- app_assoc, skip_plain;
+      [|exact H1|rewrite forallb_forall; intros p Hp; apply in_map_iff in Hp; destruct Hp as [x [<- _]]; reflexivity].
+    cbn [app fold_left].
+    replace (step (parse_fuel f) (1%N, add_mod a tok) PEnd) with (0%N, add_mod a tok) by reflexivity.
+    apply Hrest. reflexivity.
+  - (* nested component: parsed recursively from its own byte range, then its inline payloads are skipped -- at any
+       depth -- and its own End empties the stack *)
+    cbn [depth_node] in Hd. fold (depth children) in Hd.
+    assert (Hnested : parse_fuel f (stream children) = ideal children) by (apply Hc0; lia).
+    cbn [app fold_left].
+    replace (step (parse_fuel f) (0%N, a) (PComponent children))
+      with (1%N, add_comp a (parse_fuel f (stream children))) by reflexivity.
+    rewrite Hnested.
+    rewrite step_skip_plain by (try exact H1; reflexivity).
+    rewrite <- app_assoc, skip_nodes by exact H1.
+    cbn [app fold_left].
+    replace (step (parse_fuel f) (1%N, add_comp a (ideal children)) PEnd) with (0%N, add_comp a (ideal children)) by reflexivity.
+    apply Hrest. reflexivity.
 Qed.
 
 Lemma parse_ok_all : forall nd, parse_ok nd.
 Proof.
   induction nd using node_ind'; cbn [parse_ok]; auto.
-  intros Hc f Hf. destruct f as [|f]; [lia|].
+  intros f Hf. destruct f as [|f]; [lia|].
   cbn [parse_fuel]. unfold stream, init_state.
-  cbn [fold_left]. replace (step (parse_fuel f) (0%N, 0%N, empty_ir) PVersion) with (0%N, 0%N, empty_ir) by reflexivity.
-  rewrite (loop_level f cs H Hc ltac:(lia) [PEnd] 0%N empty_ir).
-  cbn [fold_left]. unfold step. cbn. reflexivity.
+  cbn [fold_left]. replace (step (parse_fuel f) (0%N, empty_ir) PVersion) with (0%N, empty_ir) by reflexivity.
+  rewrite (loop_level f cs H ltac:(lia) [PEnd] empty_ir).
+  reflexivity.
 Qed.
 
-Theorem parse_ideal cs : clean cs = true -> parse cs = ideal cs.
+(* parse_comp attributes every section to the level it belongs to: for EVERY tree, at any depth *)
+Theorem parse_ideal cs : parse cs = ideal cs.
 Proof.
-  intros Hc. unfold parse. rewrite (parse_ok_all (NComp cs) Hc); [reflexivity|lia].
-Qed.
-
-(* ------------------------------------------------------------------------------------------ *)
-(* the structural classifier known_D14 of CheckComp.v implies the stream condition [clean] *)
-
-Lemma ends_repeat n : ends (repeat PEnd n) = n.
-Proof. induction n as [|n IH]; [reflexivity|]. unfold ends in *. cbn. rewrite IH. reflexivity. Qed.
-
-Lemma chain_node_comp cs : chain_node (NComp cs) = S (chain cs).
-Proof. reflexivity. Qed.
-
-Lemma ends_stream_node : forall nd, ends (stream_node nd) = desc_node nd.
-Proof.
-  induction nd using node_ind'; try reflexivity.
-  - cbn [stream_node desc_node].
-    change (PModule t cs :: PVersion :: map PCustom cs ++ [PEnd]) with ([PModule t cs; PVersion] ++ map PCustom cs ++ [PEnd]).
-    rewrite !ends_app.
-    replace (ends (map PCustom cs)) with O; [reflexivity|].
-    unfold ends. induction cs as [|c cs IH]; [reflexivity|exact IH].
-  - cbn [stream_node desc_node].
-    change (PComponent cs :: PVersion :: flat_map stream_node cs ++ [PEnd]) with ([PComponent cs; PVersion] ++ flat_map stream_node cs ++ [PEnd]).
-    rewrite !ends_app.
-    replace (ends (flat_map stream_node cs)) with (fold_right (fun c n => (desc_node c + n)%nat) O cs); [cbn; lia|].
-    induction H as [|c cs Hc _ IH]; [reflexivity|].
-    cbn [flat_map fold_right]. rewrite ends_app, Hc, IH. reflexivity.
-Qed.
-Lemma ends_flat_map_desc cs : ends (flat_map stream_node cs) = desc cs.
-Proof.
-  induction cs as [|c cs IH]; [reflexivity|].
-  cbn [flat_map]. rewrite ends_app, ends_stream_node, IH. reflexivity.
-Qed.
-
-Lemma chain_tail_list cs :
-  Forall (fun nd => exists pre, stream_node nd = pre ++ repeat PEnd (chain_node nd)) cs ->
-  exists pre, flat_map stream_node cs = pre ++ repeat PEnd (chain cs).
-Proof.
-  induction cs as [|x cs IH]; intros H.
-  - exists []. reflexivity.
-  - inversion H as [|? ? [px Hx] H']; subst.
-    destruct cs as [|y r].
-    + exists px. cbn [flat_map chain]. rewrite app_nil_r. exact Hx.
-    + destruct (IH H') as [pre Hpre].
-      exists (stream_node x ++ pre).
-      change (chain (x :: y :: r)) with (chain (y :: r)).
-      cbn [flat_map] in *. rewrite Hpre, app_assoc. reflexivity.
-Qed.
-Lemma chain_tail_node : forall nd, exists pre, stream_node nd = pre ++ repeat PEnd (chain_node nd).
-Proof.
-  induction nd using node_ind'.
-  1,3,4,5: eexists; cbn [chain_node repeat]; rewrite app_nil_r; reflexivity.
-  - exists (PModule t cs :: PVersion :: map PCustom cs). reflexivity.
-  - destruct (chain_tail_list cs H) as [pre Hpre].
-    exists (PComponent cs :: PVersion :: pre).
-    rewrite chain_node_comp. cbn [stream_node]. rewrite Hpre.
-    cbn [repeat]. rewrite (repeat_cons (chain cs) PEnd), <- !app_assoc. reflexivity.
-Qed.
-Lemma chain_tail cs : exists pre, flat_map stream_node cs = pre ++ repeat PEnd (chain cs).
-Proof. apply chain_tail_list. rewrite Forall_forall. intros nd _. apply chain_tail_node. Qed.
-
-Lemma after_ends_repeat : forall m k, forallb is_end (after_ends k (repeat PEnd m)) = true.
-Proof.
-  induction m as [|m IH]; intros k.
-  - destruct k; reflexivity.
-  - destruct k as [|k]; cbn [repeat after_ends].
-    + cbn [forallb is_end andb]. specialize (IH O). rewrite after_ends_0 in IH. exact IH.
-    + apply IH.
-Qed.
-Lemma after_ends_tail : forall pre k m,
-  (ends pre < k)%nat -> forallb is_end (after_ends k (pre ++ repeat PEnd m)) = true.
-Proof.
-  induction pre as [|p pre IH]; intros k m Hk.
-  - apply after_ends_repeat.
-  - destruct k as [|k]; [lia|].
-    unfold ends in Hk. cbn [filter] in Hk.
-    destruct p; cbn [is_end length] in Hk; cbn [app after_ends]; apply IH; unfold ends; lia.
-Qed.
-
-Lemma leaks_tail_ok cs : leaks cs = false -> tail_ok cs = true.
-Proof.
-  unfold leaks, tail_ok, deep. intros H. apply Nat.ltb_ge in H.
-  destruct (chain_tail cs) as [pre Hpre].
-  pose proof (ends_flat_map_desc cs) as Hd. rewrite Hpre, ends_app, ends_repeat in Hd.
-  unfold stream. rewrite Hpre.
-  replace (PVersion :: (pre ++ repeat PEnd (chain cs)) ++ [PEnd]) with ((PVersion :: pre) ++ repeat PEnd (S (chain cs))).
-  2:{ cbn [repeat]. rewrite (repeat_cons (chain cs) PEnd), <- !app_assoc. reflexivity. }
-  apply after_ends_tail.
-  assert (children cs <= desc cs)%nat by (rewrite <- ends_flat_map_desc; apply ends_flat_map).
-  unfold ends in *. cbn [filter is_end]. lia.
-Qed.
-
-Lemma d14_clean_node : forall nd, d14_node nd = false -> clean_node nd = true.
-Proof.
-  induction nd using node_ind'; try reflexivity.
-  cbn [d14_node clean_node]. intros Hd. apply orb_false_iff in Hd. destruct Hd as [Hl He].
-  rewrite (leaks_tail_ok cs Hl). cbn [andb].
-  rewrite forallb_forall. intros c Hc.
-  rewrite Forall_forall in H. apply H; [exact Hc|].
-  destruct (d14_node c) eqn:E; [|reflexivity].
-  exfalso. assert (existsb d14_node cs = true) by (apply existsb_exists; exists c; auto). congruence.
-Qed.
-Lemma d14_clean cs : known_D14 cs = false -> clean cs = true.
-Proof.
-  unfold known_D14, clean. intros He. rewrite forallb_forall. intros c Hc.
-  apply d14_clean_node. destruct (d14_node c) eqn:E; [|reflexivity].
-  exfalso. assert (existsb d14_node cs = true) by (apply existsb_exists; exists c; auto). congruence.
+  unfold parse. apply (parse_ok_all (NComp cs)). lia.
 Qed.
 
 (* ------------------------------------------------------------------------------------------ *)
@@ -969,9 +828,9 @@ Proof. intros H. exact (replay_ideal_node sf (NComp cs) H). Qed.
 
 (* parse, then replay: the round trip of the model, exactly *)
 Theorem roundtrip_exact sf cs :
-  wf cs = true -> known_D14 cs = false -> roundtrip sf cs = Some (expect_body sf cs).
+  wf cs = true -> roundtrip sf cs = Some (expect_body sf cs).
 Proof.
-  intros Hw Hd. unfold roundtrip. rewrite (parse_ideal cs (d14_clean cs Hd)). apply replay_ideal. exact Hw.
+  intros Hw. unfold roundtrip. rewrite parse_ideal. apply replay_ideal. exact Hw.
 Qed.
 
 (* ------------------------------------------------------------------------------------------ *)
@@ -1158,83 +1017,54 @@ Qed.
 (* ------------------------------------------------------------------------------------------ *)
 (* the theorems *)
 
-(* without a D14 leak and without a D28 item the round trip of the model yields a tree equivalent to the input *)
+(* without a re-encoded item the round trip of the model yields a tree equivalent to the input -- at any depth *)
 Theorem roundtrip_equiv sf cs :
-  wf cs = true -> known_D14 cs = false -> reenc_hit sf cs = false ->
+  wf cs = true -> reenc_hit sf cs = false ->
   exists out, roundtrip sf cs = Some out /\ eqv out cs.
 Proof.
-  intros Hw Hd Hs. exists (expect_body sf cs). split; [apply roundtrip_exact; assumption|].
+  intros Hw Hs. exists (expect_body sf cs). split; [apply roundtrip_exact; assumption|].
   unfold eqv. rewrite expect_body_norm by exact Hs. apply norm_body_idem.
 Qed.
 
-(* D14 needs nesting depth >= 3 *)
-Lemma depth_in c cs : In c cs -> (depth_node c <= depth cs)%nat.
-Proof.
-  induction cs as [|x cs IH]; intros H; [destruct H|].
-  rewrite depth_cons. destruct H as [->|H]; [lia|]. specialize (IH H). lia.
-Qed.
-Lemma desc_pos_depth cs : (1 <= desc cs)%nat -> (1 <= depth cs)%nat.
-Proof.
-  induction cs as [|c cs IH]; cbn [desc fold_right]; [lia|]. fold (desc cs). rewrite depth_cons. intros H.
-  destruct c; cbn [desc_node depth_node] in *; try lia; apply IH; lia.
-Qed.
-Lemma deep_witness cs : (children cs < desc cs)%nat -> exists c, In c cs /\ (2 <= depth_node c)%nat.
-Proof.
-  unfold children. induction cs as [|c cs IH]; cbn [desc fold_right filter]; [cbn; lia|]. fold (desc cs). intros H.
-  destruct c; cbn [is_body desc_node length] in H;
-    try (destruct IH as [x [Hx Hd]]; [lia|exists x; split; [right; exact Hx|exact Hd]]).
-  - (* a nested component *)
-    fold (desc children) in H.
-    destruct (Nat.eq_dec (desc children) 0) as [E|E].
-    + destruct IH as [x [Hx Hd]]; [lia|exists x; split; [right; exact Hx|exact Hd]].
-    + exists (NComp children). split; [left; reflexivity|]. cbn [depth_node]. fold (depth children).
-      pose proof (desc_pos_depth children). lia.
-Qed.
-Lemma d14_depth : forall nd, d14_node nd = true -> (3 <= depth_node nd)%nat.
-Proof.
-  induction nd using node_ind'; try discriminate.
-  cbn [d14_node depth_node]. fold (depth cs). intros Hd. apply orb_true_iff in Hd. destruct Hd as [Hl|He].
-  - unfold leaks, deep in Hl. apply Nat.ltb_lt in Hl.
-    destruct (deep_witness cs) as [c [Hc Hd]]; [lia|]. pose proof (depth_in c cs Hc). lia.
-  - apply existsb_exists in He. destruct He as [c [Hc Hd]].
-    rewrite Forall_forall in H. pose proof (H c Hc Hd). pose proof (depth_in c cs Hc). lia.
-Qed.
-Theorem d14_needs_depth3 cs : (depth cs <= 2)%nat -> known_D14 cs = false.
-Proof.
-  intros Hd. destruct (known_D14 cs) eqn:E; [|reflexivity]. exfalso.
-  unfold known_D14 in E. apply existsb_exists in E. destruct E as [c [Hc Hk]].
-  pose proof (d14_depth c Hk). pose proof (depth_in c cs Hc). lia.
-Qed.
-
-(* the unrestricted statement is false of the faithful model: the smallest D14 witness *)
+(* The two smallest witnesses of the former defect D14 (parse_comp skipped a nested body with a stack on which the
+   child had pushed one entry per *direct* child of its own, so a body at depth >= 2 made the sections behind it leak
+   into the parent).  With the repaired parser they are positive examples. *)
+(* a section follows the only child of a component that has a grandchild: the section used to be duplicated into
+   the root *)
 Definition witness_D14 : list node := [NComp [NComp [NMod 1 []]; NItems ICompType [2]]]%N.
-Theorem roundtrip_refuted_D14 :
-  wf witness_D14 = true /\ known_D14 witness_D14 = true /\ reenc_hit [] witness_D14 = false /\
-  exists out, roundtrip [] witness_D14 = Some out /\ ~ eqv out witness_D14.
+Theorem roundtrip_former_D14_witness :
+  wf witness_D14 = true /\ depth witness_D14 = 3%nat /\ reenc_hit [] witness_D14 = false /\
+  exists out, roundtrip [] witness_D14 = Some out /\ eqv out witness_D14.
 Proof.
   split; [reflexivity|]. split; [reflexivity|]. split; [reflexivity|].
   eexists. split; [vm_compute; reflexivity|].
-  intros H. apply eqvb_eqv in H. vm_compute in H. discriminate H.
+  apply eqvb_eqv. vm_compute. reflexivity.
 Qed.
-(* a D14 leak can also make encode_comp panic: the child's start section leaks into a parent that has its own *)
+(* the child's start section used to leak into a parent that has its own, and encode_comp panicked on
+   assert_eq!(start_section.len(), 1) *)
 Definition witness_D14_panic : list node :=
   [NItems IImport [1]; NComp [NItems IImport [2]; NComp [NMod 3 []]; NStart 4]; NStart 5]%N.
-Theorem roundtrip_refuted_D14_panic :
-  wf witness_D14_panic = true /\ known_D14 witness_D14_panic = true /\ roundtrip [] witness_D14_panic = None.
-Proof. split; [reflexivity|]. split; [reflexivity|]. vm_compute. reflexivity. Qed.
-(* and the smallest D28 witness: one component-type item whose re-encoding differs *)
+Theorem roundtrip_former_D14_panic_witness :
+  wf witness_D14_panic = true /\ depth witness_D14_panic = 3%nat /\ reenc_hit [] witness_D14_panic = false /\
+  exists out, roundtrip [] witness_D14_panic = Some out /\ eqv out witness_D14_panic.
+Proof.
+  split; [reflexivity|]. split; [reflexivity|]. split; [reflexivity|].
+  eexists. split; [vm_compute; reflexivity|].
+  apply eqvb_eqv. vm_compute. reflexivity.
+Qed.
+(* the smallest D28 witness: one component-type item whose re-encoding differs *)
 Theorem roundtrip_refuted_D28 :
   let cs := [NItems ICompType [1]]%N in let sf := [(1, 2)]%N in
-  wf cs = true /\ known_D14 cs = false /\ reenc_hit sf cs = true /\
+  wf cs = true /\ reenc_hit sf cs = true /\
   exists out, roundtrip sf cs = Some out /\ ~ eqv out cs.
 Proof.
-  cbv zeta. split; [reflexivity|]. split; [reflexivity|]. split; [reflexivity|].
+  cbv zeta. split; [reflexivity|]. split; [reflexivity|].
   eexists. split; [vm_compute; reflexivity|].
   intros H. apply eqvb_eqv in H. vm_compute in H. discriminate H.
 Qed.
 
-(* checker soundness: a case the model agrees with, inside the domain, outside every known class, whose output the
-   validator accepts, satisfies the property checker *)
+(* checker soundness: a case the model agrees with, inside the domain, outside every known class (no re-encoded item),
+   whose output the validator accepts, satisfies the property checker *)
 Definition obs_valid (c : ccase) : bool := match c_obs c with OTree _ v => v | _ => false end.
 Theorem checker27_sound c :
   agree c = true -> domain27 c = true -> classes27 c = [] -> obs_valid c = true -> holds27 c = true.
@@ -1242,11 +1072,10 @@ Proof.
   unfold agree, domain27, classes27, obs_valid, holds27, model.
   intros Ha Hd Hc Hv. apply andb_true_iff in Ha. destruct Ha as [_ Ha].
   apply andb_true_iff in Hd. destruct Hd as [_ Hw].
-  destruct (known_D14 (c_in c)) eqn:E14; [discriminate Hc|].
   unfold quirk_classes in Hc.
   destruct (reenc_hit (c_sf c) (c_in c)) eqn:E28.
-  { exfalso. cbn [app] in Hc. destruct (flat_map _ _) as [|k ks]; discriminate Hc. }
-  rewrite (roundtrip_exact _ _ Hw E14) in Ha.
+  { exfalso. destruct (flat_map _ _) as [|k ks]; discriminate Hc. }
+  rewrite (roundtrip_exact _ _ Hw) in Ha.
   destruct (c_obs c) as [| | |t v]; try discriminate Ha.
   apply nodes_eqb_eq in Ha. subst t. rewrite Hv. cbn [andb].
   apply eqvb_eqv. unfold eqv. rewrite expect_body_norm by exact E28. apply norm_body_idem.
